@@ -182,7 +182,8 @@ class sx_bytearray(metaclass=_ShadowMeta):
 
     @staticmethod
     def _proxies():
-        return ()
+        from . import cryptomodel
+        return (cryptomodel.SxByteArray,)
 
     @staticmethod
     def _convert(*a, **k):
@@ -192,6 +193,10 @@ class sx_bytearray(metaclass=_ShadowMeta):
                 return conv()
             if isinstance(a[0], SymInt):
                 return builtins.bytearray(a[0].concrete('bytearray(n)'))
+            if isinstance(a[0], builtins.int) and not isinstance(a[0], builtins.bool) and core.active() and len(a) == 1:
+                # bytearray(n): a mutable array that also accepts symbolic bytes
+                from . import cryptomodel
+                return cryptomodel.SxByteArray([0] * a[0])
         return builtins.bytearray(*a, **k)
 
 
